@@ -23,9 +23,9 @@ func init() {
 		Rule: "the batch cases of C12 (1..12 calls here, so that single-fault placements are dense) with per-call outcome " +
 			"scripts over {ok, fatal, retry-later, region-not-serving, connection dead before/after execution}, the table " +
 			"dropped between retry rounds (re-location fails in a later round), cancellation before queueing / while waiting / " +
-			"during back-off. Judged per slot i: the result is the response the server produced for call i (payload derived " +
+			"during back-off / as the reply is written / while delivered results are being collected (wrapper calls that cancel when their result is looked at), a call's own context ending in four states, an action left out of the response. Judged per slot i: the result is the response the server produced for call i (payload derived " +
 			"from its op id) or the error the server attached to call i, a delivered success is never replaced by another " +
-			"call's error, no executed call keeps the not-executed placeholder, allOK == all errors nil. distinct = outcome " +
+			"call's error, no executed call keeps the not-executed placeholder, allOK == all errors nil, no untriggered batch runs into its 20 s deadline. distinct = outcome " +
 			"matrix; non-trivial = at least one non-ok outcome or trigger",
 		Assumptions: []string{"with a cancellation trigger a delivered success may legitimately surface as the context error (the client may not have read it yet)"},
 		Plan: func(tier string) fw.Plan {
